@@ -38,6 +38,27 @@ type Case struct {
 	// put deps.json somewhere else and name it with -d
 	OmitX    bool   `json:"omitX,omitempty"`
 	DepsPath string `json:"depsPath,omitempty"`
+	// another input that the same process (cli sub-check: the same directory) handles first:
+	// it is analysed, merged both ways and laid out, and judged on its own; then the case itself
+	Before *Earlier `json:"before,omitempty"`
+	// cli sub-check only: how the options are spelled (zero value: -x v -d v -H -P) and how the
+	// two JSON files are laid out
+	Cli CliForm `json:"cli,omitempty"`
+}
+
+type Earlier struct {
+	Model       mgen.Model `json:"model"`
+	Identifiers []string   `json:"identifiers"`
+	Filter      string     `json:"filter"`
+}
+
+type CliForm struct {
+	Long       bool `json:"long,omitempty"`       // --filter --dependence --mergeHeader --mergePackage
+	Equals     bool `json:"equals,omitempty"`     // --filter=v / -x=v instead of two arguments
+	FlagsFirst bool `json:"flagsFirst,omitempty"` // -H / -P before -x and -d
+	Combined   bool `json:"combined,omitempty"`   // -HP as one argument (short form, both set)
+	Visual     bool `json:"visual,omitempty"`     // -v: also writes visual.json, arch.dot unchanged
+	JSON       int  `json:"json,omitempty"`       // 0 compact, 1 tab-indented (as coca writes it), 2 the same with CRLF, 3 two blanks, blank lines around
 }
 
 // ---- generator ---------------------------------------------------------------------------
@@ -45,7 +66,10 @@ type Case struct {
 // small alphabets: concatenations such as "a"+"bc" == "ab"+"c" are reachable
 var segs = []string{"a", "ab", "bc", "c", "b", "abc"}
 var classNames = []string{"A", "B", "C", "D", "E", "Main", "MainFrame", "Domain", "AB", "AppMain", "main"}
-var methodNames = []string{"run", "m1", "m2", "main", "mainLoop", "remain", "domain"}
+var methodNames = []string{"run", "m1", "m2", "main", "mainLoop", "remain", "domain", "main", "Main", "MAIN", "main_", "_main"}
+
+// how coca's full pass tags a call (CodeCall.Type); the statement counts a call whatever its tag
+var callTags = []string{"", "", "", "", "chain", "lambda", "same package", "same package 2", "super", "CreatorClass"}
 var extTypes = []string{"java.util.List", "java.util.ArrayList", "org.ext.Base", "org.ext.api.Port", "java.io.Serializable"}
 var bareTypes = []string{"Base", "Runnable", "T"}
 
@@ -55,8 +79,8 @@ var bareTypes = []string{"Base", "Runnable", "T"}
 // DOT language, and a long name. The plain alphabets come first, so shrinking moves to them.
 // The point of these names: two different qualified names that become equal when '.', '_', '$'
 // or letter case or non-ASCII letters are not told apart, or when only a prefix is looked at.
-var wideSegs = []string{"a_b", "ab_c", "a$b", "_a", "A", "Ab", "aB", "a1", "b1c", "ä", "ö", "äb", "包", "node1", "cluster1", "node", "graph", "subgraph", "G"}
-var wideClassNames = []string{"a", "b_A", "A_B", "A$B", "B$C", "B_C", "c_A", "_A", "A1", "Ä", "Ö", "Äb", "Öb", "订单", "注文", "node1", "node2", "cluster1", "Node", "Edge", "Graph", "digraph", "strict", "G", longStem + "1"}
+var wideSegs = []string{"a_b", "ab_c", "a$b", "_a", "A", "Ab", "aB", "a1", "b1c", "ä", "ö", "äb", "包", "node1", "cluster1", "node", "graph", "subgraph", "G", "edge", "main", "Main"}
+var wideClassNames = []string{"a", "b_A", "A_B", "A$B", "B$C", "B_C", "c_A", "_A", "A1", "Ä", "Ö", "Äb", "Öb", "订单", "注文", "node1", "node2", "cluster1", "Node", "Edge", "Graph", "digraph", "strict", "G", longStem + "1", "MAIN", "Main1", "Main_", "_Main", "Main$1"}
 
 // 44 characters: longer than any width an id or label could sensibly be cut to
 const longStem = "OrderFulfilmentSettlementReconciliationFacade"
@@ -70,7 +94,7 @@ func alphabets(wide bool) (segAlphabet, nameAlphabet []string) {
 
 func pkgGen(maxDepth int, segAlphabet []string) *rapid.Generator[string] {
 	return rapid.Custom(func(t *rapid.T) string {
-		depth := rapid.SampledFrom([]int{1, 1, 1, 1, 2, 2, 2, 3, 4, 7}).Draw(t, "depth")
+		depth := rapid.SampledFrom([]int{1, 1, 1, 1, 2, 2, 2, 3, 4, 7, 1, 2, 3, 12}).Draw(t, "depth")
 		if depth > maxDepth {
 			depth = maxDepth
 		}
@@ -83,13 +107,16 @@ func pkgGen(maxDepth int, segAlphabet []string) *rapid.Generator[string] {
 // and resolved modulo the number of types, so it stays valid when types are deleted.
 type refDraw struct{ kind, target, aux int }
 
-var refGen = rapid.Custom(func(t *rapid.T) refDraw {
-	return refDraw{kind: rapid.IntRange(0, 11).Draw(t, "kind"), target: rapid.IntRange(0, 6).Draw(t, "target"), aux: rapid.IntRange(0, 11).Draw(t, "aux")}
-})
+func refGen(maxTarget int) *rapid.Generator[refDraw] {
+	return rapid.Custom(func(t *rapid.T) refDraw {
+		return refDraw{kind: rapid.IntRange(0, 11).Draw(t, "kind"), target: rapid.IntRange(0, maxTarget).Draw(t, "target"), aux: rapid.IntRange(0, 11).Draw(t, "aux")}
+	})
+}
 
 type callDraw struct {
 	ref    refDraw
 	callee string
+	tag    string
 }
 
 type methodDraw struct {
@@ -99,7 +126,7 @@ type methodDraw struct {
 
 type classDraw struct {
 	pkg, name string
-	kind      string // "" (a class), "Interface"
+	kind      string    // "" (a class), "Interface"
 	spread    bool      // take the i-th package of the pool while there are unused ones
 	extend    []refDraw // 0 or 1
 	impls     []refDraw
@@ -110,15 +137,23 @@ type classDraw struct {
 	twin, twinOf, twinAux int
 }
 
-var callGen = rapid.Custom(func(t *rapid.T) callDraw {
-	return callDraw{ref: refGen.Draw(t, "ref"), callee: rapid.SampledFrom([]string{"f", "g", "main"}).Draw(t, "callee")}
-})
+func callGen(maxTarget int) *rapid.Generator[callDraw] {
+	return rapid.Custom(func(t *rapid.T) callDraw {
+		return callDraw{ref: refGen(maxTarget).Draw(t, "ref"), callee: rapid.SampledFrom([]string{"f", "g", "main"}).Draw(t, "callee"),
+			tag: rapid.SampledFrom(callTags).Draw(t, "tag")}
+	})
+}
 
-var methodGen = rapid.Custom(func(t *rapid.T) methodDraw {
-	return methodDraw{name: rapid.SampledFrom(methodNames).Draw(t, "mname"), calls: rapid.SliceOfN(callGen, 0, 3).Draw(t, "calls")}
-})
+func methodGen(maxTarget int) *rapid.Generator[methodDraw] {
+	return rapid.Custom(func(t *rapid.T) methodDraw {
+		return methodDraw{name: rapid.SampledFrom(methodNames).Draw(t, "mname"), calls: rapid.SliceOfN(callGen(maxTarget), 0, 3).Draw(t, "calls")}
+	})
+}
 
-func classGen(pool []string, nameAlphabet []string, wide bool) *rapid.Generator[classDraw] {
+// maxTarget: references to project types are drawn from 0..maxTarget (and taken modulo the
+// number of types): 6 for the usual models of up to 7 types, n-1 for a large model of n
+func classGen(pool []string, nameAlphabet []string, wide bool, maxTarget int) *rapid.Generator[classDraw] {
+	refGen, methodGen := refGen(maxTarget), methodGen(maxTarget)
 	return rapid.Custom(func(t *rapid.T) classDraw {
 		c := classDraw{pkg: rapid.SampledFrom(pool).Draw(t, "pkg"), name: rapid.SampledFrom(nameAlphabet).Draw(t, "name")}
 		if wide && rapid.IntRange(0, 2).Draw(t, "hasTwin") == 2 {
@@ -169,7 +204,11 @@ var runePairs = [][2]string{{"Ä", "Ö"}, {"订", "注"}, {"é", "注"}, {"Ä", 
 func makeTwin(kind, aux int, op, on string, segAlphabet []string) (pkg, name, op2, on2 string, ok bool) {
 	switch kind {
 	case 1, 2, 8:
-		if !strings.Contains(op, ".") {
+		if op == "" {
+			// the other type is in the default package: put it into a package of one segment; the
+			// twin then is a type of the default package (seg.On | .seg_On)
+			op = segAlphabet[aux%len(segAlphabet)]
+		} else if !strings.Contains(op, ".") {
 			// a package of one segment: the only dot is the one before the type name, and a type
 			// needs a package. Put the other type one package further down first.
 			op = op + "." + segAlphabet[aux%len(segAlphabet)]
@@ -211,7 +250,10 @@ func isPackageOf(name string, classes []mgen.Class) bool {
 	return false
 }
 
-func gen(t *rapid.T) Case {
+func gen(t *rapid.T) Case    { return genFor(t, false) }
+func genCLI(t *rapid.T) Case { return genFor(t, true) }
+
+func genFor(t *rapid.T, forCLI bool) Case {
 	var pool []string
 	// naming: 0-5 plain (the small colliding alphabets), 6-9 wide (see wideSegs, makeTwin)
 	wide := rapid.IntRange(0, 9).Draw(t, "naming") >= 6
@@ -233,14 +275,37 @@ func gen(t *rapid.T) Case {
 		}
 		pool = []string{p + "a", p + "ab", "bc" + q, "c" + q}
 	} else {
-		pool = rapid.SliceOfN(pkgGen(8, segAlphabet), rapid.IntRange(1, 3).Draw(t, "minPkgs"), 4).Draw(t, "pkgs")
+		pool = rapid.SliceOfN(pkgGen(12, segAlphabet), rapid.IntRange(1, 3).Draw(t, "minPkgs"), 4).Draw(t, "pkgs")
+	}
+	// size: 0-10 the usual model of 0-7 types; 11 a large one of 8-70 types over up to 8 more
+	// packages (DOT ids node10, node64, cluster100; maps and slices past 8, 16, 32, 64 entries)
+	minClasses, maxClasses, maxTarget := rapid.IntRange(0, 5).Draw(t, "minClasses"), 7, 6
+	large := rapid.IntRange(0, 11).Draw(t, "size") == 11
+	if large {
+		minClasses = rapid.SampledFrom([]int{8, 9, 10, 11, 12, 16, 17, 31, 33, 64, 70}).Draw(t, "types")
+		maxClasses, maxTarget = minClasses+3, minClasses+2
+		pool = append(pool, rapid.SliceOfN(pkgGen(8, segAlphabet), 2, 8).Draw(t, "morePkgs")...)
+	}
+	// one model in ten has types in the default package (Package "", node name ".A"); such a
+	// model is judged on Analysis and the merges, its DOT is not (see the assumptions), so the
+	// cli sub-check, which sees the DOT only, does not draw them
+	defPkg := !forCLI && rapid.IntRange(0, 9).Draw(t, "defaultPackage") == 9
+	if defPkg {
+		at := rapid.IntRange(0, len(pool)).Draw(t, "defaultPackageAt")
+		pool = append(pool[:at:at], append([]string{""}, pool[at:]...)...)
 	}
 	var m mgen.Model
 	var draws []classDraw
 	seen := map[string]bool{}
-	for i, d := range rapid.SliceOfN(classGen(pool, nameAlphabet, wide), rapid.IntRange(1, 5).Draw(t, "minClasses"), 7).Draw(t, "classes") {
+	for i, d := range rapid.SliceOfN(classGen(pool, nameAlphabet, wide, maxTarget), minClasses, maxClasses).Draw(t, "classes") {
 		if d.spread && i < len(pool) {
 			d.pkg = pool[i]
+		}
+		if large {
+			// the name alphabets are small: a taken name gets a number
+			for k, stem := 2, d.name; seen[d.pkg+"."+d.name]; k++ {
+				d.name = stem + fmt.Sprint(k)
+			}
 		}
 		if seen[d.pkg+"."+d.name] {
 			continue
@@ -286,6 +351,26 @@ func gen(t *rapid.T) Case {
 			seen[c.Full()] = true
 		}
 	}
+	// one model in six: two relations whose texts concatenate alike (a.A -> Bc.D and a.AB -> c.D
+	// both read "a.ABc.D" without a separator). A type F2 named like another type F1 plus a
+	// suffix joins the model, before or after F1; F2 gets a relation to a project type T, F1
+	// one to the type whose name is the suffix followed by T's name (added once the relations
+	// of the other types are there, see below)
+	keyF1, keyF2, keyT, keySuffix, keyHow := "", "", "", "", 0
+	if n := len(m.Classes); n > 0 && rapid.IntRange(0, 5).Draw(t, "alikeRelations") == 5 {
+		f1 := m.Classes[rapid.IntRange(0, n-1).Draw(t, "alikeOf")]
+		tgt := m.Classes[rapid.IntRange(0, n-1).Draw(t, "alikeTarget")]
+		keySuffix = rapid.SampledFrom([]string{"B", "1", "_X", "Frame", "$In", "ä"}).Draw(t, "alikeSuffix")
+		keyHow = rapid.IntRange(0, 3).Draw(t, "alikeRelation")
+		at := rapid.IntRange(0, n).Draw(t, "alikeAt")
+		f2 := mgen.Class{Pkg: f1.Pkg, Name: f1.Name + keySuffix, Type: f1.Type}
+		if tgt.Pkg != "" && !seen[f2.Full()] && !isPackageOf(f2.Full(), m.Classes) {
+			seen[f2.Full()] = true
+			keyF1, keyF2, keyT = f1.Full(), f2.Full(), tgt.Full()
+			m.Classes = append(m.Classes[:at:at], append([]mgen.Class{f2}, m.Classes[at:]...)...)
+			draws = append(draws[:at:at], append([]classDraw{{}}, draws[at:]...)...)
+		}
+	}
 	var all []string
 	for _, c := range m.Classes {
 		all = append(all, c.Full())
@@ -299,30 +384,41 @@ func gen(t *rapid.T) Case {
 				ids = append(ids, n)
 			}
 		}
-		if len(ids) == len(all) {
+		if len(ids) == len(all) && len(ids) > 0 {
 			ids = ids[:len(ids)-1]
 		}
 	}
 	// a type reference: project type (mostly), own type, external, missing type in a project
 	// package, bare name
-	resolve := func(r refDraw, self mgen.Class) (pkg, node string) {
+	defaultPkgName := map[string]bool{}
+	for _, c := range m.Classes {
+		if c.Pkg == "" {
+			defaultPkgName[c.Name] = true
+		}
+	}
+	// project: the reference names a type of the model (which may be in the default package)
+	resolve := func(r refDraw, self mgen.Class) (pkg, node string, project bool) {
 		switch {
 		case r.kind < 7:
 			c := m.Classes[r.target%len(m.Classes)]
-			return c.Pkg, c.Name
+			return c.Pkg, c.Name, true
 		case r.kind < 8:
-			return self.Pkg, self.Name
+			return self.Pkg, self.Name, true
 		case r.kind < 10:
 			x := extTypes[r.aux%len(extTypes)]
 			i := strings.LastIndex(x, ".")
-			return x[:i], x[i+1:]
+			return x[:i], x[i+1:], false
 		case r.kind < 11:
-			return pool[r.aux%len(pool)], "Missing"
+			return pool[r.aux%len(pool)], "Missing", false
+		case r.aux < 6 || defaultPkgName[m.Classes[r.target%len(m.Classes)].Name]:
+			return "", bareTypes[r.aux%len(bareTypes)], false
 		default:
-			return "", bareTypes[r.aux%len(bareTypes)]
+			// an unresolved name that reads like a project type: the simple name of one (not of a
+			// type of the default package: whether the bare text B names the type .B is left open)
+			return "", m.Classes[r.target%len(m.Classes)].Name, false
 		}
 	}
-	join := func(pkg, node string) string {
+	join3 := func(pkg, node string, _ bool) string {
 		if pkg == "" {
 			return node
 		}
@@ -330,20 +426,28 @@ func gen(t *rapid.T) Case {
 	}
 	for ci := range m.Classes {
 		c, d := &m.Classes[ci], draws[ci]
+		// a supertype is a text in the model. A supertype in the default package is left out:
+		// whether it is written B or .B, and whether B names the type .B, is left open
 		for _, r := range d.extend {
-			c.Extend = join(resolve(r, *c))
+			if pkg, _, project := resolve(r, *c); project && pkg == "" {
+				continue
+			}
+			c.Extend = join3(resolve(r, *c))
 			if c.Extend == c.Full() {
 				c.Extend = "" // a class extending itself is not a model of any program
 			}
 		}
 		for _, r := range d.impls {
-			if s := join(resolve(r, *c)); s != c.Full() {
+			if pkg, _, project := resolve(r, *c); project && pkg == "" {
+				continue
+			}
+			if s := join3(resolve(r, *c)); s != c.Full() {
 				c.Implements = append(c.Implements, s)
 			}
 		}
 		for _, r := range d.fields {
-			pkg, node := resolve(r, *c)
-			if pkg == "" {
+			pkg, node, project := resolve(r, *c)
+			if pkg == "" && !project {
 				continue // a field call is recorded only when the field type resolves
 			}
 			c.FieldCalls = append(c.FieldCalls, mgen.Call{Pkg: pkg, Node: node, Type: "field"})
@@ -351,13 +455,42 @@ func gen(t *rapid.T) Case {
 		for _, md := range d.methods {
 			mm := mgen.Method{Name: md.name}
 			for _, cd := range md.calls {
-				pkg, node := resolve(cd.ref, *c)
-				if pkg == "" && cd.ref.aux%2 == 0 {
+				pkg, node, project := resolve(cd.ref, *c)
+				if pkg == "" && !project && cd.ref.aux%2 == 0 {
 					node = "" // unresolved receiver (otherwise a receiver type without package)
 				}
-				mm.Calls = append(mm.Calls, mgen.Call{Pkg: pkg, Node: node, Func: cd.callee})
+				tag := cd.tag
+				if tag != "" && pkg == c.Pkg && node == c.Name {
+					tag = "self"
+				}
+				mm.Calls = append(mm.Calls, mgen.Call{Pkg: pkg, Node: node, Func: cd.callee, Type: tag})
 			}
 			c.Methods = append(c.Methods, mm)
+		}
+	}
+	if keyF2 != "" {
+		inIds := false
+		for _, id := range ids {
+			inIds = inIds || id == keyT
+		}
+		for ci := range m.Classes {
+			c := &m.Classes[ci]
+			switch c.Full() {
+			case keyF1:
+				c.Implements = append(c.Implements, keySuffix+keyT)
+			case keyF2:
+				i := strings.LastIndex(keyT, ".")
+				switch {
+				case keyHow == 0:
+					c.Extend = keyT
+				case keyHow == 1:
+					c.Implements = append(c.Implements, keyT)
+				case keyHow == 2 || !inIds:
+					c.FieldCalls = append(c.FieldCalls, mgen.Call{Pkg: keyT[:i], Node: keyT[i+1:], Type: "field"})
+				default:
+					c.Methods = append(c.Methods, mgen.Method{Name: "run", Calls: []mgen.Call{{Pkg: keyT[:i], Node: keyT[i+1:], Func: "f"}}})
+				}
+			}
 		}
 	}
 	mode := rapid.IntRange(0, 7).Draw(t, "mode") // 0-2 type graph, 3-4 -H, 5-6 -P, 7 both
@@ -373,10 +506,13 @@ func gen(t *rapid.T) Case {
 		if mergePackage {
 			n = strings.SplitN(n, ".", 2)[0]
 		}
-		if !shownSet[n] {
+		if !shownSet[n] && n != "" { // "": the unnamed package as a merged node
 			shownSet[n] = true
 			shown = append(shown, n)
 		}
+	}
+	if len(shown) == 0 {
+		shown = []string{"a.A"} // a model without types: filters are drawn as for one type
 	}
 	var filter string
 	pick := func(label string) string {
@@ -423,7 +559,57 @@ func gen(t *rapid.T) Case {
 	}
 	c.OmitX = filter == "" && rapid.Bool().Draw(t, "omitX")
 	if rapid.IntRange(0, 3).Draw(t, "depsElsewhere") == 3 {
-		c.DepsPath = rapid.SampledFrom([]string{"deps.json", "out/model.json", "coca_reporter/other.json"}).Draw(t, "depsPath")
+		c.DepsPath = rapid.SampledFrom([]string{"deps.json", "out/model.json", "coca_reporter/other.json", "./coca_reporter/deps.json", "deps", "out dir/my deps.json"}).Draw(t, "depsPath")
+	}
+	// one case in four: the process has handled another input before. It is made from the case's
+	// own model, so the names are the same but what holds for them is not: every type takes the
+	// relations of the type k places on, the last d types are missing, the identifier map is
+	// the complement (or everything, or empty), and it is laid out with a filter of its own.
+	if rapid.IntRange(0, 3).Draw(t, "earlierInput") == 3 && len(m.Classes) > 0 {
+		k := rapid.IntRange(0, 3).Draw(t, "earlierShift")
+		d := rapid.IntRange(0, 2).Draw(t, "earlierDrop")
+		idMode := rapid.IntRange(0, 2).Draw(t, "earlierIds")
+		n := len(m.Classes)
+		if d > n-1 {
+			d = n - 1
+		}
+		e := &Earlier{Filter: pick("e1")}
+		for i := 0; i < n-d; i++ {
+			src, cl := m.Classes[(i+k)%n], m.Classes[i]
+			cl.Extend, cl.Implements, cl.FieldCalls, cl.Methods = src.Extend, nil, src.FieldCalls, src.Methods
+			if cl.Extend == cl.Full() {
+				cl.Extend = ""
+			}
+			for _, s := range src.Implements {
+				if s != cl.Full() {
+					cl.Implements = append(cl.Implements, s)
+				}
+			}
+			e.Model.Classes = append(e.Model.Classes, cl)
+		}
+		inIds := map[string]bool{}
+		for _, id := range ids {
+			inIds[id] = true
+		}
+		for _, cl := range e.Model.Classes {
+			if idMode == 0 || idMode == 1 && !inIds[cl.Full()] {
+				e.Identifiers = append(e.Identifiers, cl.Full())
+			}
+		}
+		c.Before = e
+	}
+	// spelling of the command line and layout of the JSON files (cli sub-check)
+	if rapid.IntRange(0, 2).Draw(t, "cliSpelling") == 2 {
+		c.Cli.Long = rapid.Bool().Draw(t, "longOptions")
+		c.Cli.Equals = rapid.Bool().Draw(t, "equalsForm")
+		c.Cli.FlagsFirst = rapid.Bool().Draw(t, "flagsFirst")
+		c.Cli.Visual = rapid.Bool().Draw(t, "visual")
+	}
+	if mergeHeader && mergePackage && !c.Cli.Long {
+		c.Cli.Combined = rapid.Bool().Draw(t, "combinedFlags")
+	}
+	if rapid.IntRange(0, 2).Draw(t, "jsonLayout") == 2 {
+		c.Cli.JSON = rapid.IntRange(1, 3).Draw(t, "jsonStyle")
 	}
 	return c
 }
@@ -840,6 +1026,13 @@ func checkDot(text string, nodes map[string]bool, required, allowed map[pair]boo
 	shown := map[string]bool{}
 	for _, l := range lay.leaves {
 		name := l.full()
+		// "under its package path": one cluster per package segment, the leaf labelled with the
+		// last segment (no name of the domain holds a dot, so no label does)
+		for _, part := range append(append([]string{}, l.chain...), l.label) {
+			if strings.Contains(part, ".") || part == "" {
+				return fmt.Sprintf("DOT shows %q as label %q under clusters %q: not one cluster per package segment", name, l.label, l.chain)
+			}
+		}
 		if !nodes[name] {
 			return fmt.Sprintf("DOT shows %q (label %q under clusters %v) which is not a node of the graph", name, l.label, l.chain)
 		}
@@ -896,7 +1089,14 @@ func checkDot(text string, nodes map[string]bool, required, allowed map[pair]boo
 func showDot(text string) string {
 	lay, err := parseLayout(text)
 	if err != nil {
-		return text
+		// unreadable: the lines of the text, sorted (their order follows the tool's map iteration,
+		// and so do the numbers in the ids: the message has to be the same on every run)
+		lines := strings.Split(text, "\n")
+		sort.Strings(lines)
+		if len(lines) > 60 {
+			lines = append(lines[:60], fmt.Sprintf("... %d more lines", len(lines)-60))
+		}
+		return "DOT text, lines sorted:\n" + strings.Join(lines, "\n")
 	}
 	idName := map[string]string{}
 	var leaves, edges []string
@@ -1002,7 +1202,75 @@ func cliMerge(c Case) func(string) string {
 	}
 }
 
+func hasDefaultPackage(m mgen.Model) bool {
+	for _, cl := range m.Classes {
+		if cl.Pkg == "" {
+			return true
+		}
+	}
+	return false
+}
+
+func splitFilter(f string) ([]string, func(string) bool) {
+	fl := strings.Split(f, ",")
+	return fl, func(key string) bool {
+		for _, x := range fl {
+			if strings.Contains(key, x) {
+				return true
+			}
+		}
+		return false
+	}
+}
+
+// earlier handles the input the process sees before the case itself: analysed, merged both
+// ways, laid out, each judged like the case's own results.
+func earlier(e *Earlier) string {
+	c := Case{Model: e.Model, Identifiers: e.Identifiers, Filter: e.Filter}
+	ref := buildRef(c)
+	var g *tequila.FullGraph
+	if p := pbt.Call(func() { g = arch.NewArchApp().Analysis(c.Model.ToCoca(), idMap(c)) }); p != "" {
+		return "Analysis panicked: " + p
+	}
+	if g == nil {
+		return "Analysis returned nil"
+	}
+	if msg := compareGraph("Analysis", g, ref.nodes, ref.edges, ref.edges); msg != "" {
+		return msg
+	}
+	for _, mf := range []struct {
+		name string
+		f    func(string) string
+	}{{"MergeHeaderFunc", tequila.MergeHeaderFunc}, {"MergePackageFunc", tequila.MergePackageFunc}} {
+		var mg *tequila.FullGraph
+		if p := pbt.Call(func() { mg = g.MergeHeaderFile(mf.f) }); p != "" {
+			return fmt.Sprintf("MergeHeaderFile(%s) panicked: %s", mf.name, p)
+		}
+		qn, req, alw := ref.quotient(mf.f)
+		if msg := compareGraph("MergeHeaderFile("+mf.name+")", mg, qn, req, restrict(alw, qn)); msg != "" {
+			return msg
+		}
+	}
+	if hasDefaultPackage(c.Model) {
+		return ""
+	}
+	filters, include := splitFilter(c.Filter)
+	var text string
+	if p := pbt.Call(func() { text = "di" + g.ToMapDot(include).String() }); p != "" {
+		return "ToMapDot panicked: " + p
+	}
+	if msg := checkDot(text, ref.nodes, ref.edges, ref.edges, filters, true); msg != "" {
+		return fmt.Sprintf("%s\nfilter %q\n%s", msg, c.Filter, showDot(text))
+	}
+	return ""
+}
+
 func check(c Case) pbt.Verdict {
+	if c.Before != nil {
+		if msg := earlier(c.Before); msg != "" {
+			return pbt.Fail("the input handled first in the same process: %s", msg)
+		}
+	}
 	ref := buildRef(c)
 	deps := c.Model.ToCoca()
 	ids := idMap(c)
@@ -1081,19 +1349,7 @@ func check(c Case) pbt.Verdict {
 	}); p != "" {
 		return pbt.Fail("MergeHeaderFile panicked: %s", p)
 	}
-	filters := strings.Split(c.Filter, ",")
-	include := func(key string) bool {
-		for _, f := range filters {
-			if strings.Contains(key, f) {
-				return true
-			}
-		}
-		return false
-	}
-	var text string
-	if p := pbt.Call(func() { text = "di" + result.ToMapDot(include).String() }); p != "" {
-		return pbt.Fail("ToMapDot panicked: %s", p)
-	}
+	filters, include := splitFilter(c.Filter)
 	nodes, req, alw := ref.nodes, ref.edges, ref.edges
 	merged := c.MergeHeader || c.MergePackage
 	if merged {
@@ -1103,20 +1359,20 @@ func check(c Case) pbt.Verdict {
 			return pbt.Fail("%s", msg)
 		}
 	}
+	if hasDefaultPackage(c.Model) {
+		// how a type of the default package and its relations are drawn is left open
+		return classify(c, ref, nodes, req, filters)
+	}
+	var text string
+	if p := pbt.Call(func() { text = "di" + result.ToMapDot(include).String() }); p != "" {
+		return pbt.Fail("ToMapDot panicked: %s", p)
+	}
 	if msg := checkDot(text, nodes, req, alw, filters, !merged); msg != "" {
 		return pbt.Fail("%s\nfilter %q, merged=%v\n%s", msg, c.Filter, merged, showDot(text))
 	}
 	// 5. the same graph laid out again: with another filter, then with the first one once more
 	for i, f := range []string{c.Filter2, c.Filter} {
-		fl := strings.Split(f, ",")
-		inc := func(key string) bool {
-			for _, x := range fl {
-				if strings.Contains(key, x) {
-					return true
-				}
-			}
-			return false
-		}
+		fl, inc := splitFilter(f)
 		var again string
 		if p := pbt.Call(func() { again = "di" + result.ToMapDot(inc).String() }); p != "" {
 			return pbt.Fail("ToMapDot (layout %d of the same graph) panicked: %s", i+2, p)
@@ -1160,6 +1416,9 @@ func classify(c Case, ref reference, shownNodes map[string]bool, shownReq map[pa
 			depth = d
 		}
 	}
+	if depth >= 10 {
+		add("max_package_depth>=10")
+	}
 	if depth > 4 {
 		add("max_package_depth>=5")
 	} else {
@@ -1182,6 +1441,117 @@ func classify(c Case, ref reference, shownNodes map[string]bool, shownReq map[pa
 	}
 	if c.DepsPath != "" {
 		add("cli_with_-d")
+	}
+	if c.Cli.Long {
+		add("cli_long_option_names")
+	}
+	if c.Cli.Equals {
+		add("cli_option=value")
+	}
+	if c.Cli.FlagsFirst {
+		add("cli_switches_before_-x")
+	}
+	if c.Cli.Combined && !c.Cli.Long && c.MergeHeader && c.MergePackage {
+		add("cli_-HP_as_one_argument")
+	}
+	if c.Cli.Visual {
+		add("cli_with_-v")
+	}
+	if c.Cli.JSON != 0 {
+		add(fmt.Sprintf("cli_json_layout=%d", c.Cli.JSON))
+	}
+	if c.Before != nil {
+		add("another_input_handled_first")
+	}
+	// sizes: the DOT ids are node<k> and cluster<k>
+	for _, n := range []int{8, 10, 16, 32, 64} {
+		if len(ref.nodes) >= n {
+			add(fmt.Sprintf("types>=%d", n))
+		}
+	}
+	if len(c.Model.Classes) == 0 {
+		add("model_without_types")
+	}
+	if len(ref.edges) >= 32 {
+		add("relations>=32")
+	}
+	alike := map[string]int{}
+	for p := range ref.all {
+		alike[p.From+p.To]++
+	}
+	for _, n := range alike {
+		if n > 1 {
+			add("two_relations_concatenate_alike")
+			break
+		}
+	}
+	defPkgType, defPkgEdge, tagged, bareProject, mainVariantClass, mainVariantMethod, mainSeg := false, false, false, false, false, false, false
+	simple := map[string]bool{}
+	for _, cl := range c.Model.Classes {
+		simple[cl.Name] = true
+	}
+	for n := range ref.nodes {
+		if strings.HasPrefix(n, ".") {
+			defPkgType = true
+		}
+		segs := strings.Split(n, ".")
+		for _, seg := range segs[:len(segs)-1] {
+			if seg == "main" || seg == "Main" {
+				mainSeg = true
+			}
+		}
+	}
+	for p := range ref.edges {
+		if p.From != p.To && (strings.HasPrefix(p.From, ".") || strings.HasPrefix(p.To, ".")) {
+			defPkgEdge = true
+		}
+	}
+	for _, cl := range c.Model.Classes {
+		switch cl.Name {
+		case "MAIN", "Main1", "Main_", "_Main", "Main$1":
+			mainVariantClass = true
+		}
+		bare := append(append([]string{}, cl.Implements...), cl.Extend)
+		for _, b := range bare {
+			if b != "" && !strings.Contains(b, ".") && simple[b] {
+				bareProject = true
+			}
+		}
+		for _, m := range cl.Methods {
+			for _, call := range m.Calls {
+				if call.Type != "" {
+					tagged = true
+				}
+				if call.Pkg == "" && simple[call.Node] && !ref.nodes["."+call.Node] {
+					bareProject = true
+				}
+				switch m.Name {
+				case "Main", "MAIN", "main_", "_main":
+					mainVariantMethod = true
+				}
+			}
+		}
+	}
+	if defPkgType {
+		add("type_in_default_package")
+	}
+	if defPkgEdge {
+		add("relation_with_type_in_default_package")
+	}
+	if tagged {
+		add("call_with_a_type_tag")
+	}
+	if bareProject {
+		add("unresolved_name_equal_to_a_project_type_name")
+	}
+	if mainVariantClass {
+		add("class_named_MAIN_Main1_Main__or_alike")
+	}
+	if mainVariantMethod {
+		add("method_named_Main_MAIN_main__with_calls")
+	}
+	if mainSeg {
+		add("package_segment_main_or_Main")
 	}
 	if len(c.Identifiers) < len(c.Model.Classes) {
 		add("identifier_map_strict_subset")
@@ -1358,33 +1728,113 @@ func classify(c Case, ref reference, shownNodes map[string]bool, shownReq map[pa
 // checkCLI runs the real `coca arch` on deps.json / identify.json written from the case and
 // judges coca_reporter/arch.dot with the same DOT oracle.
 func checkCLI(c Case) pbt.Verdict {
-	ref := buildRef(c)
 	dir := cli.Scratch("c13-")
 	defer os.RemoveAll(dir)
-	deps, _ := json.Marshal(c.Model.ToCoca())
+	if c.Before != nil && !hasDefaultPackage(c.Before.Model) {
+		// the same directory has seen another input: its reports are lying around
+		b := Case{Model: c.Before.Model, Identifiers: c.Before.Identifiers, Filter: c.Before.Filter, Cli: CliForm{Visual: true}}
+		if v := runCLI(dir, b); v.Violation != "" || v.Skip {
+			if v.Violation != "" {
+				v.Violation = "the input handled first in the same directory: " + v.Violation
+			}
+			return v
+		}
+		if c.DepsPath != "" {
+			_ = os.Remove(filepath.Join(dir, "coca_reporter", "deps.json"))
+		}
+	}
+	return runCLI(dir, c)
+}
+
+func layoutJSON(v interface{}, style int) string {
+	var raw []byte
+	switch style {
+	case 1, 2:
+		raw, _ = json.MarshalIndent(v, "", "\t")
+	case 3:
+		raw, _ = json.MarshalIndent(v, "", "  ")
+	default:
+		raw, _ = json.Marshal(v)
+	}
+	text := string(raw)
+	switch style {
+	case 2:
+		text = strings.ReplaceAll(text, "\n", "\r\n") + "\r\n"
+	case 3:
+		text = "\n\n" + text + "\n\n"
+	}
+	return text
+}
+
+func cliArgs(c Case) []string {
+	name := map[string]string{"-x": "-x", "-d": "-d", "-H": "-H", "-P": "-P", "-v": "-v"}
+	if c.Cli.Long {
+		name = map[string]string{"-x": "--filter", "-d": "--dependence", "-H": "--mergeHeader", "-P": "--mergePackage", "-v": "--showVisual"}
+	}
+	var values, switches []string
+	value := func(opt, v string) {
+		// "-x=" is not the empty value for pflag (it reads the value "="): two arguments then
+		if c.Cli.Equals && (c.Cli.Long || v != "") {
+			values = append(values, name[opt]+"="+v)
+		} else {
+			values = append(values, name[opt], v)
+		}
+	}
+	if !(c.OmitX && c.Filter == "") {
+		value("-x", c.Filter)
+	}
+	if c.DepsPath != "" {
+		value("-d", c.DepsPath)
+	}
+	if c.MergeHeader && c.MergePackage && c.Cli.Combined && !c.Cli.Long {
+		switches = append(switches, "-HP")
+	} else {
+		if c.MergeHeader {
+			switches = append(switches, name["-H"])
+		}
+		if c.MergePackage {
+			switches = append(switches, name["-P"])
+		}
+	}
+	if c.Cli.Visual {
+		switches = append(switches, name["-v"])
+	}
+	if c.Cli.FlagsFirst {
+		return append(append([]string{"arch"}, switches...), values...)
+	}
+	return append(append([]string{"arch"}, values...), switches...)
+}
+
+// stableText keeps of the tool's stderr what is the same on every run: no scratch directory, no
+// lines of the standard logger (date, time, the profiler's temporary file)
+func stableText(stderr, dir string) string {
+	var keep []string
+	for _, line := range strings.Split(strings.ReplaceAll(stderr, dir, "<dir>"), "\n") {
+		if len(line) > 20 && line[4] == '/' && line[7] == '/' && line[10] == ' ' && line[13] == ':' {
+			continue
+		}
+		keep = append(keep, line)
+	}
+	return strings.Join(keep, "\n")
+}
+
+func runCLI(dir string, c Case) pbt.Verdict {
+	ref := buildRef(c)
+	var deps interface{} = c.Model.ToCoca()
+	if len(c.Model.Classes) == 0 {
+		deps = []core_domain.CodeDataStruct{}
+	}
 	idl := identifierList(c)
 	if idl == nil {
 		idl = []core_domain.CodeDataStruct{}
 	}
-	idents, _ := json.Marshal(idl)
 	depsPath := "coca_reporter/deps.json"
 	if c.DepsPath != "" {
 		depsPath = c.DepsPath
 	}
-	cli.WriteTree(dir, map[string]string{depsPath: string(deps), "coca_reporter/identify.json": string(idents)})
-	args := []string{"arch"}
-	if !(c.OmitX && c.Filter == "") {
-		args = append(args, "-x", c.Filter)
-	}
-	if c.DepsPath != "" {
-		args = append(args, "-d", c.DepsPath)
-	}
-	if c.MergeHeader {
-		args = append(args, "-H")
-	}
-	if c.MergePackage {
-		args = append(args, "-P")
-	}
+	cli.WriteTree(dir, map[string]string{depsPath: layoutJSON(deps, c.Cli.JSON), "coca_reporter/identify.json": layoutJSON(idl, c.Cli.JSON)})
+	args := cliArgs(c)
+	shown := fmt.Sprintf("%q", args)
 	res, err := cli.Run("coca", dir, nil, args...)
 	if err != nil {
 		panic("cannot run coca: " + err.Error())
@@ -1393,11 +1843,11 @@ func checkCLI(c Case) pbt.Verdict {
 		return pbt.Verdict{Skip: true}
 	}
 	if res.ExitCode != 0 {
-		return pbt.Fail("`coca %s` exited with %d\n%s", strings.Join(args, " "), res.ExitCode, res.Stderr)
+		return pbt.Fail("coca %s exited with %d\n%s", shown, res.ExitCode, stableText(res.Stderr, dir))
 	}
 	raw, err := os.ReadFile(filepath.Join(dir, "coca_reporter", "arch.dot"))
 	if err != nil {
-		return pbt.Fail("`coca %s` wrote no coca_reporter/arch.dot: %v\n%s", strings.Join(args, " "), err, res.Stderr)
+		return pbt.Fail("coca %s wrote no coca_reporter/arch.dot\n%s", shown, stableText(res.Stderr, dir))
 	}
 	filters := strings.Split(c.Filter, ",")
 	nodes, req, alw := ref.nodes, ref.edges, ref.edges
@@ -1407,7 +1857,7 @@ func checkCLI(c Case) pbt.Verdict {
 		alw = restrict(alw, nodes)
 	}
 	if msg := checkDot(string(raw), nodes, req, alw, filters, !merged); msg != "" {
-		return pbt.Fail("coca %s: %s\n%s", strings.Join(args, " "), msg, showDot(string(raw)))
+		return pbt.Fail("coca %s: %s\n%s", shown, msg, showDot(string(raw)))
 	}
 	v := classify(c, ref, nodes, req, filters)
 	v.Canon = "cli|" + v.Canon
@@ -1416,14 +1866,18 @@ func checkCLI(c Case) pbt.Verdict {
 
 func init() {
 	pbt.SetProperty("C13")
-	pbt.Describe("rapid-generated code models: 1-7 types (classes and interfaces) over 1-5 packages of depth 1-8 whose segments come from {a, ab, bc, c, b, abc} (so that different package pairs concatenate to the same string; one model in six puts its packages below a common stem of 5-6 segments, so that full type names have 7-9 segments, the lengths around MergePackageFunc's cut at 7), type names incl. Main, MainFrame, AppMain, main, Domain; two models in five use the wide naming, everything a Java identifier may consist of: package segments and type names with '_' and '$' (a_b, b_A, B$C), in either letter case (Ab, aB, a), with digits, with letters outside ASCII of two and three bytes (\u00e4, \u00c4b, \u8ba2\u5355), names that read like DOT ids and keywords (node1, cluster1, graph, subgraph, digraph, strict, G) and a name of 45 characters, and in these models every third type is renamed to a near-twin of another type, i.e. a different qualified name that becomes equal to the other once a distinction is dropped: one dot read as '_' or '$' or dropped (legacy.order.Dao | legacy.order_Dao | legacy_order.Dao | legacy.orderDao, which under -H are the packages app.batch.jobs | app.batch_jobs), inner-class style B$In | B_In, letter case of the type name or of one package segment, equally many non-ASCII runes (\u00c4B | \u00d6B, also 3-byte and mixed-width pairs and \u00c4B | _B), a common prefix of 45+ characters; per type an optional Extend, 0-2 Implements, 0-3 field calls (Type \"field\") and 0-3 methods (names incl. main, mainLoop, remain) with 0-3 calls; every reference targets a project type, the own type, an external type (java.util.List ...), an undeclared type in a project package, or a bare name (as a call receiver: empty, or a type name without package); identifier map = all project types or a strict subset; -x filter (empty, segment, 'seg.', '.Name', full type name, package, no match, two-element lists); merge mode none / -H / -P / -H -P. Oracle: reference node set N (types not named Main) and edge set E computed from the abstract model as the statement defines it (calls count only for methods not named main, callee type in the identifier map and different from the caller's type); Analysis: NodeList == N and RelationList restricted to NxN == E; MergeHeaderFile with MergeHeaderFunc and with MergePackageFunc on every case: nodes == f(N), relations between result nodes contain {(fA,fB) | (A,B) in E, fA != fB} and nothing outside the image of the model's dependencies; MergeHeaderFunc == strip last dotted segment; MergePackageFunc (otherwise taken as given) gives the same answer when asked again and maps a dotted name to a dotted prefix of it; a second Analysis of the same model gives the same graph; the graph the CLI would lay out is laid out three times (-x filter, a second drawn filter, the first filter again) and each DOT is judged on its own; DOT (\"di\"+ToMapDot(filter).String(), and coca_reporter/arch.dot of the real `coca arch` in the cli sub-check): accepted by a strict structural reader and by gographviz with equal node/cluster counts, every leaf is an included node shown once with its cluster-label chain == package path, every included type shown, every edge joins two declared leaves and is a reference relation, every reference relation between two shown nodes is drawn. the cli sub-check passes -x, or leaves it out when the filter is empty, and in one case of four puts deps.json elsewhere and names it with -d. Non-trivial = at least one relation to a non-project type and one between project types and >= 2 packages; distinct = hash of (N, all dependencies, filter, mode).",
+	pbt.Describe("rapid-generated code models: 0-7 types (classes and interfaces; one model in twelve is large: 8-74 types over up to 8 more packages, so that the DOT ids pass node9/cluster99 and the graph's maps pass 8, 16, 32, 64 entries) over 1-5 packages of depth 1-13 whose segments come from {a, ab, bc, c, b, abc} (so that different package pairs concatenate to the same string; one model in six puts its packages below a common stem of 5-6 segments, so that full type names have 7-9 segments, the lengths around MergePackageFunc's cut at 7), type names incl. Main, MainFrame, AppMain, main, Domain; two models in five use the wide naming, everything a Java identifier may consist of: package segments and type names with '_' and '$' (a_b, b_A, B$C), in either letter case (Ab, aB, a), with digits, with letters outside ASCII of two and three bytes (\u00e4, \u00c4b, \u8ba2\u5355), names that read like DOT ids and keywords (node1, cluster1, graph, subgraph, digraph, strict, G) and a name of 45 characters, package segments main / Main / edge, types MAIN, Main1, Main_, _Main, Main$1, and in these models every third type is renamed to a near-twin of another type, i.e. a different qualified name that becomes equal to the other once a distinction is dropped: one dot read as '_' or '$' or dropped (legacy.order.Dao | legacy.order_Dao | legacy_order.Dao | legacy.orderDao, which under -H are the packages app.batch.jobs | app.batch_jobs), inner-class style B$In | B_In, letter case of the type name or of one package segment, equally many non-ASCII runes (\u00c4B | \u00d6B, also 3-byte and mixed-width pairs and \u00c4B | _B), a common prefix of 45+ characters; per type an optional Extend, 0-2 Implements, 0-3 field calls (Type \"field\") and 0-3 methods (names incl. main, mainLoop, remain, Main, MAIN, main_, _main) with 0-3 calls, each call with one of the tags coca's full pass gives (none, chain, lambda, same package, same package 2, super, CreatorClass, self for the own type); every reference targets a project type, the own type, an external type (java.util.List ...), an undeclared type in a project package, or a bare name (Base, Runnable, T, or the simple name of a project type; as a call receiver: empty, or a type name without package); one model in ten has types in the default package (Package \"\", node .A; referenced by calls and field calls with Package \"\"); one model in six gets two relations whose texts concatenate alike (a.A -> Bc.D next to a.AB -> c.D, the longer-named type before or after the other); identifier map = all project types or a strict subset; -x filter (empty, segment, 'seg.', '.Name', full type name, package, no match, two-element lists); merge mode none / -H / -P / -H -P. Oracle: reference node set N (types not named Main) and edge set E computed from the abstract model as the statement defines it (calls count only for methods not named main, callee type in the identifier map and different from the caller's type); Analysis: NodeList == N and RelationList restricted to NxN == E; MergeHeaderFile with MergeHeaderFunc and with MergePackageFunc on every case: nodes == f(N), relations between result nodes contain {(fA,fB) | (A,B) in E, fA != fB} and nothing outside the image of the model's dependencies; MergeHeaderFunc == strip last dotted segment; MergePackageFunc (otherwise taken as given) gives the same answer when asked again and maps a dotted name to a dotted prefix of it; a second Analysis of the same model gives the same graph; the graph the CLI would lay out is laid out three times (-x filter, a second drawn filter, the first filter again) and each DOT is judged on its own; in one case of four the process first handles another input made from the case's own model (every type takes the relations of the type 0-3 places on, the last 0-2 types missing, identifier map everything / the complement / empty, a filter of its own): it is analysed, merged both ways and laid out, and judged like the case itself; DOT (\"di\"+ToMapDot(filter).String(), and coca_reporter/arch.dot of the real `coca arch` in the cli sub-check): accepted by a strict structural reader and by gographviz with equal node/cluster counts, every leaf is an included node shown once with its cluster-label chain == package path (one cluster per segment: no label holds a dot or is empty), every included type shown, every edge joins two declared leaves and is a reference relation, every reference relation between two shown nodes is drawn. the cli sub-check passes -x, or leaves it out when the filter is empty, and in one case of four puts deps.json elsewhere and names it with -d (also ./coca_reporter/deps.json, a name without extension, a path with blanks); one case in three spells the options differently (--filter/--dependence/--mergeHeader/--mergePackage, option=value, switches first, -HP as one argument, -v/--showVisual added) and one in three lays deps.json and identify.json out differently (tab-indented as coca writes them, the same with CRLF, two blanks with blank lines around); where the case has an earlier input, `coca arch -v` is first run on it in the same directory. Non-trivial = at least one relation to a non-project type and one between project types and >= 2 packages; distinct = hash of (N, all dependencies, filter, mode).",
 		"'project type' for a call is membership in the identifier map, as the code and DESIGN.md define it; when the identifier map is a strict subset, calls to types outside it are expected to give no edge",
 		"a dependency on a type outside N whose merged name equals a merged node (e.g. an undeclared type in a project package) may or may not appear as a relation of the merged graph: allowed, not required",
 		"for merged graphs (-H/-P) a node that is a dotted prefix of another included node (package a next to a.b) is not required to be displayed: the display clause of the statement speaks of types; observed: such a package is drawn as a cluster only and its relations are not drawn",
-		"names are Java identifiers (ASCII letters, digits, '_', '$', letters outside ASCII): no quote, backslash, slash, blank, '-' or '->'; every type has a non-empty package (depth 1-8); -x texts are cut between runes",
+		"names are Java identifiers (ASCII letters, digits, '_', '$', letters outside ASCII): no quote, backslash, slash, blank, '-' or '->'; -x texts are cut between runes",
+		"types of the default package: the node is named Package+\".\"+NodeName = .A, as coca's identifier map and call keys name it; a model that has one is judged on Analysis and on the merges only, its DOT and the cli sub-check are left out: how such a type and its relations are to be drawn is open (observed: drawn at top level, its relations keyed .A are not drawn, a supertype text A is); supertypes in the default package, and bare names equal to the name of a default-package type, are not generated (whether the text B names the type .B is open)",
+		"an unresolved bare name equal to the simple name of a packaged project type is a text like any other: no edge",
+		"the identifier map never holds more than the model's types (with more, 'one node per project type' and 'project type = in the identifier map' would disagree)",
+		"constructors and calls without a function name (creation) are not generated: whether they are methods / method calls in the statement's sense is open",
 		"no type's qualified name is the package, or an enclosing package, of another type (a package cannot hold a type and a subpackage of the same name, JLS 7.1); the generator appends '_' to such a type name. Observed otherwise: the type is drawn as a cluster only, like the dotted-prefix package of the merged graphs")
 	pbt.Register("graph", 3000, 30000, gen, check)
-	pbt.Register("cli", 120, 600, gen, checkCLI)
+	pbt.Register("cli", 120, 600, genCLI, checkCLI)
 }
 
 func TestProp(t *testing.T)   { pbt.Main(t) }
